@@ -10,11 +10,29 @@ package main
 // passing), so the output is a plain if/let tree that `split`/`omega` handle well.
 // Anything outside the subset makes the extractor FAIL LOUDLY (exit 1): the tie is then
 // reported broken instead of being silently wrong.
+//
+// Upward-compatible extensions (all off unless the per-function configuration asks for them;
+// a configuration that uses none of the new fields is translated exactly as before):
+//   * `else if` chains (the inner `if` is translated as the else block);
+//   * named results (`Named`): `let r : Int := 0` for each at the top, `err = <call>` records the
+//     error on the current path, a bare `return` yields the recorded error or Ok(named…);
+//     `return a, b, nil` with any number of values;
+//   * the error term chosen by the call that builds the error (`ErrBy`);
+//   * selector expressions `x.f` mapped to Lean identifiers (`Sel`), field reads `v.f` of a
+//     local mapped to a Lean function (`Field`), comparisons with nil (`NotNil` / `IsNil`),
+//     comma-ok type assertions `v, ok := x.(*T)` (`Assert`, `AssertOk`);
+//   * methods (`Recv`), whole expressions / statements mapped by their printed source text
+//     (`Exprs`, `Acts`: a statement mapped to a Lean term becomes the ACTION the function
+//     returns at the next `return`/end of body, a statement mapped to "" is part of the
+//     previous action) for `func (…) M(…)` without results whose effect is one of a few
+//     slice operations chosen by index arithmetic;
+//   * integer `*` and `/` `%` are still outside the subset.
 
 import (
 	"fmt"
 	"go/ast"
 	"go/parser"
+	"go/printer"
 	"go/token"
 	"strconv"
 	"strings"
@@ -31,6 +49,28 @@ type FuncCfg struct {
 	Ok       string            // format for success, e.g. ".ok %s"
 	Err      string            // Lean term for every error return
 	StrAsLst bool              // string literals become byte lists
+
+	// extensions (see the header comment); zero values = the original subset
+	Named    []string          // named non-error results, in order (initialised to 0)
+	ErrName  string            // name of the named error result ("err")
+	ErrBy    map[string]string // "pkg.Func" building the error -> Lean term (fallback: Err)
+	Sel      map[string]string // printed selector expression "x.f" -> Lean identifier
+	Field    map[string]string // field name f in `v.f` (v a local) -> Lean function
+	NotNil   string            // Lean function for `x != nil`
+	IsNil    string            // Lean function for `x == nil`
+	Assert   map[string]string // asserted type, printed ("*Int") -> Lean function
+	AssertOk string            // Lean function giving the `ok` of an assertion result
+	Recv     bool              // the function is a method
+	Exprs    map[string]string // printed expression -> Lean term (checked first)
+	Acts     map[string]string // printed statement -> Lean action term, "" = no action of its own
+}
+
+func (t *tr) src(n ast.Node) string {
+	var b strings.Builder
+	if err := printer.Fprint(&b, t.fset, n); err != nil {
+		t.fail(n, "cannot print node")
+	}
+	return b.String()
 }
 
 type tr struct {
@@ -54,7 +94,21 @@ func byteList(s string) string {
 }
 
 func (t *tr) expr(e ast.Expr) string {
+	if len(t.cfg.Exprs) > 0 {
+		if lean, ok := t.cfg.Exprs[t.src(e)]; ok {
+			return lean
+		}
+	}
 	switch x := e.(type) {
+	case *ast.SelectorExpr:
+		if lean, ok := t.cfg.Sel[t.src(x)]; ok {
+			return lean
+		}
+		if id, ok := x.X.(*ast.Ident); ok {
+			if fn, ok := t.cfg.Field[x.Sel.Name]; ok {
+				return "(" + fn + " " + id.Name + ")"
+			}
+		}
 	case *ast.Ident:
 		if x.Name == "true" || x.Name == "false" {
 			return x.Name
@@ -84,6 +138,12 @@ func (t *tr) expr(e ast.Expr) string {
 			return "(-" + t.expr(x.X) + ")"
 		}
 	case *ast.BinaryExpr:
+		if isNil(x.Y) && x.Op == token.NEQ && t.cfg.NotNil != "" {
+			return "(" + t.cfg.NotNil + " " + t.expr(x.X) + ")"
+		}
+		if isNil(x.Y) && x.Op == token.EQL && t.cfg.IsNil != "" {
+			return "(" + t.cfg.IsNil + " " + t.expr(x.X) + ")"
+		}
 		l, r := t.expr(x.X), t.expr(x.Y)
 		switch x.Op {
 		case token.ADD:
@@ -136,28 +196,124 @@ func isNil(e ast.Expr) bool {
 	return ok && id.Name == "nil"
 }
 
+// pathState is what the extensions remember along one control path.
+type pathState struct {
+	errTerm string // Lean term of the error recorded by `err = …` ("" = none)
+	act     string // Lean term of the action chosen by a mapped statement ("" = none)
+}
+
 // stmts translates a statement list in continuation-passing style.
-func (t *tr) stmts(ss []ast.Stmt, ind string) string {
+func (t *tr) stmts(ss []ast.Stmt, ind string) string { return t.stmtsX(ss, ind, pathState{}) }
+
+func (t *tr) errTermOf(e ast.Expr) string {
+	if call, ok := e.(*ast.CallExpr); ok && len(t.cfg.ErrBy) > 0 {
+		name := ""
+		switch f := call.Fun.(type) {
+		case *ast.SelectorExpr:
+			if id, ok := f.X.(*ast.Ident); ok {
+				name = id.Name + "." + f.Sel.Name
+			}
+		case *ast.Ident:
+			name = f.Name
+		}
+		if lean, ok := t.cfg.ErrBy[name]; ok {
+			return lean
+		}
+		t.fail(e, "error built by "+name+" has no configured class")
+	}
+	return t.cfg.Err
+}
+
+func (t *tr) okOf(vals []string) string {
+	args := make([]interface{}, len(vals))
+	for i, v := range vals {
+		args[i] = v
+	}
+	return fmt.Sprintf(t.cfg.Ok, args...)
+}
+
+func (t *tr) stmtsX(ss []ast.Stmt, ind string, st pathState) string {
 	if len(ss) == 0 {
+		if t.cfg.Acts != nil && st.act != "" {
+			return ind + st.act // a method without results ends with the action it chose
+		}
 		t.fail(&ast.BadStmt{}, "control reaches the end of the function without return")
 	}
 	s, rest := ss[0], ss[1:]
+	if t.cfg.Acts != nil {
+		if lean, ok := t.cfg.Acts[t.src(s)]; ok {
+			if lean != "" {
+				if st.act != "" {
+					t.fail(s, "second action on one path")
+				}
+				st.act = lean
+			} else if st.act == "" {
+				t.fail(s, "continuation statement without an action before it")
+			}
+			return t.stmtsX(rest, ind, st)
+		}
+	}
 	switch x := s.(type) {
 	case *ast.ReturnStmt:
+		if len(x.Results) == 0 && t.cfg.Acts != nil {
+			if st.act == "" {
+				t.fail(s, "return without an action")
+			}
+			return ind + st.act
+		}
+		if len(x.Results) == 0 && len(t.cfg.Named) > 0 {
+			if st.errTerm != "" {
+				return ind + st.errTerm
+			}
+			return ind + t.okOf(t.cfg.Named)
+		}
+		if len(t.cfg.Named) > 0 {
+			if len(x.Results) != len(t.cfg.Named)+1 {
+				t.fail(s, "return must have one value per named result")
+			}
+			if !isNil(x.Results[len(x.Results)-1]) {
+				return ind + t.errTermOf(x.Results[len(x.Results)-1])
+			}
+			vals := make([]string, len(t.cfg.Named))
+			for i := range vals {
+				vals[i] = t.expr(x.Results[i])
+			}
+			return ind + t.okOf(vals)
+		}
 		if len(x.Results) != 2 {
 			t.fail(s, "return must have two results")
 		}
 		if isNil(x.Results[1]) {
 			return ind + fmt.Sprintf(t.cfg.Ok, t.expr(x.Results[0]))
 		}
-		return ind + t.cfg.Err
+		return ind + t.errTermOf(x.Results[1])
 	case *ast.AssignStmt:
+		// v, ok := x.(*T)
+		if len(x.Lhs) == 2 && len(x.Rhs) == 1 && x.Tok == token.DEFINE && t.cfg.Assert != nil {
+			if ta, ok := x.Rhs[0].(*ast.TypeAssertExpr); ok && ta.Type != nil {
+				fn, known := t.cfg.Assert[t.src(ta.Type)]
+				v, ok1 := x.Lhs[0].(*ast.Ident)
+				okv, ok2 := x.Lhs[1].(*ast.Ident)
+				if !known || !ok1 || !ok2 || t.cfg.AssertOk == "" {
+					t.fail(s, "type assertion outside the subset")
+				}
+				return ind + "let " + v.Name + " := (" + fn + " " + t.expr(ta.X) + ")\n" +
+					ind + "let " + okv.Name + " := (" + t.cfg.AssertOk + " " + v.Name + ")\n" + t.stmtsX(rest, ind, st)
+			}
+		}
 		if len(x.Lhs) != 1 || len(x.Rhs) != 1 {
 			t.fail(s, "only single assignment")
 		}
 		id, ok := x.Lhs[0].(*ast.Ident)
 		if !ok {
 			t.fail(s, "assignment target must be a variable")
+		}
+		if t.cfg.ErrName != "" && id.Name == t.cfg.ErrName {
+			if x.Tok != token.ASSIGN || isNil(x.Rhs[0]) {
+				t.fail(s, "only `err = <error>` is inside the subset")
+			}
+			st.errTerm = t.errTermOf(x.Rhs[0])
+			return t.stmtsX(rest, ind, st)
 		}
 		rhs := t.expr(x.Rhs[0])
 		switch x.Tok {
@@ -169,7 +325,7 @@ func (t *tr) stmts(ss []ast.Stmt, ind string) string {
 		default:
 			t.fail(s, "assignment operator outside the subset")
 		}
-		return ind + "let " + id.Name + " := " + rhs + "\n" + t.stmts(rest, ind)
+		return ind + "let " + id.Name + " := " + rhs + "\n" + t.stmtsX(rest, ind, st)
 	case *ast.IfStmt:
 		if x.Init != nil {
 			t.fail(s, "if with init statement")
@@ -182,10 +338,13 @@ func (t *tr) stmts(ss []ast.Stmt, ind string) string {
 			elseS = rest
 		case *ast.BlockStmt:
 			elseS = append(append([]ast.Stmt{}, el.List...), rest...)
+		case *ast.IfStmt:
+			// `else if`: the inner if is the whole else block
+			elseS = append([]ast.Stmt{el}, rest...)
 		default:
-			t.fail(s, "else-if chains are outside the subset")
+			t.fail(s, "else branch outside the subset")
 		}
-		return ind + "if " + c + " then\n" + t.stmts(thenS, ind+"  ") + "\n" + ind + "else\n" + t.stmts(elseS, ind+"  ")
+		return ind + "if " + c + " then\n" + t.stmtsX(thenS, ind+"  ", st) + "\n" + ind + "else\n" + t.stmtsX(elseS, ind+"  ", st)
 	}
 	t.fail(s, fmt.Sprintf("statement %T is outside the subset", s))
 	return ""
@@ -199,7 +358,7 @@ func translateFunc(repo string, cfg FuncCfg) string {
 	}
 	for _, d := range f.Decls {
 		fd, ok := d.(*ast.FuncDecl)
-		if !ok || fd.Name.Name != cfg.Func || fd.Recv != nil {
+		if !ok || fd.Name.Name != cfg.Func || (fd.Recv != nil) != cfg.Recv {
 			continue
 		}
 		t := &tr{cfg: cfg, fset: fset}
@@ -215,7 +374,11 @@ func translateFunc(repo string, cfg FuncCfg) string {
 		for _, n := range cfg.Order {
 			ps = append(ps, "("+n+" : "+cfg.Params[n]+")")
 		}
-		body := t.stmts(fd.Body.List, "  ")
+		pre := ""
+		for _, n := range cfg.Named {
+			pre += "  let " + n + " : Int := 0\n"
+		}
+		body := pre + t.stmts(fd.Body.List, "  ")
 		return "def " + cfg.Lean + " " + strings.Join(ps, " ") + " : " + cfg.RetType + " :=\n" + body + "\n"
 	}
 	panic("function " + cfg.Func + " not found in " + cfg.File)
